@@ -92,6 +92,32 @@ def run(report, db, tier):
                     p.returns and fn != 'send' and p.value != inh[0].res):
                 raise AnalysisError('VarLong overrides %s: sibling codec not '
                                     'analysed' % fn, m.node, rel(m.path))
+            # the inherited method must still run as VarLong: a call through
+            # a named class binds cls to that class, and every class
+            # attribute the inherited code reads through cls (max_bytes)
+            # then comes from there
+            f0 = inh[0].fn
+            if (f0[0] == 'fn' and len(f0) > 2 and f0[2] and
+                    f0[2][0] == 'cls' and f0[2][1] is not vl and
+                    base.kind == 'class'):
+                first = base.params[0] if base.params else None
+                reads = sorted({n.attr for n in ast.walk(base.node)
+                                if isinstance(n, ast.Attribute)
+                                and isinstance(n.value, ast.Name)
+                                and n.value.id == first})
+                for a in reads:
+                    d1, d2 = db.find_attr(vl, a), db.find_attr(f0[2][1], a)
+                    if d1 is not d2:
+                        bad = ('varlong:rebound:%s:%s' % (fn, a),
+                               'VarLong.%s calls %s.%s directly, so the '
+                               'inherited code runs with cls = %s and reads '
+                               '%s.%s instead of VarLong.%s: VarLong no '
+                               'longer has its own %s' % (
+                                   fn, f0[2][1].name, fn, f0[2][1].name,
+                                   f0[2][1].name, a, a, a))
+                        break
+                if bad:
+                    break
         if bad:
             report.violation(R, bad[0], m.path, m.node, m.qualname, bad[1])
         else:
